@@ -144,7 +144,7 @@ def _parse_block(lines: list[str]):
             d["raw"] = True
         elif word == "fragment":
             k, o = rest.split()
-            d["fragment"] = (k, int(o))
+            d["fragment"] = (k, int(o) if o.isdigit() else o)
         elif word == "subst":
             a, _, b = rest.partition("=>")
             d["subst"].append((a.strip(), b.strip()))
@@ -330,6 +330,9 @@ def generate(template_path: str, snapshot: str) -> Generated:
                 lines_ = hdr
                 info = FnInfo(name=cname, qual=f"{file} | {item}", props=d["props"], line_lo=base, line_hi=0,
                               safety_id=f"{unit}.{cname}.safety")
+                init = m.group(3)
+                arg = init[init.find("(") + 1:init.rfind(")")] if "(" in init else init
+                d["constensures"] = [(o, c.replace("$ARG", "(" + arg + ")")) for (o, c) in d["constensures"]]
                 for oid, clause in d["constensures"]:
                     line_to_oid[base + lines_.count("\n")] = oid
                     obligations.append(Obligation(oid, d["props"], "ensures", clause, cname, info.qual, base + lines_.count("\n")))
@@ -393,8 +396,8 @@ def generate(template_path: str, snapshot: str) -> Generated:
                 vac_fns.append(f"verif_vac_{name}")
             continue
         # ordinary template line
-        if pending_oblig and re.search(r"\bproof\s+fn\s+([A-Za-z_0-9]+)", s):
-            nm = re.search(r"\bproof\s+fn\s+([A-Za-z_0-9]+)", s).group(1)
+        if pending_oblig and re.search(r"\bfn\s+([A-Za-z_0-9]+)", s):
+            nm = re.search(r"\bfn\s+([A-Za-z_0-9]+)", s).group(1)
             # find end of this proof fn in the template (brace matching from here)
             j, depth, seen = i, 0, False
             while j < len(tl):
